@@ -12,14 +12,19 @@ import (
 
 func (u *UseCase) Rollback(ctx context.Context) error {
 	txId := model.GetTxId(ctx)
+
+	u.endM.Lock()
 	_, err := u.txRepo.Delete(ctx, txId)
 	if errors.Is(err, fs_db.ErrTxNotFound) {
+		u.endM.Unlock()
 		return nil
 	} else if err != nil {
+		u.endM.Unlock()
 		return fmt.Errorf("tx repository delete: %w", err)
 	}
 
 	deleteFiles := u.fRepo.DeleteTx(ctx, txId)
+	u.endM.Unlock()
 	if len(deleteFiles) > 0 {
 		u.cleaner.DeleteFilesAsync(ctx, deleteFiles)
 	}
